@@ -201,7 +201,6 @@ class Exec:
             if isinstance(ks, Raise): yield s, ks; continue
             for s2, vs in self.ev_seq(node.values, s):
                 yield s2, (vs if isinstance(vs, Raise) else dict(zip(ks, vs)))
-    def ev_JoinedStr(self, node, st): raise Unsupported("f-string")
     def _comprehension(self, node, st):
         """evaluate a single-generator comprehension over a concrete iterable with concrete conditions; None if not possible"""
         if len(node.generators) != 1 or node.generators[0].is_async: return None
@@ -710,6 +709,51 @@ class Exec:
         if all(z3.is_string_value(o) for o in out): return "".join(o.as_string() for o in out)   # fully concrete
         return Sym(STR, z3.Concat(*out) if len(out) > 1 else out[0])
 
+    def format_fields(self, st, pieces):
+        """str.format / f-string: `pieces` are literal texts and (value, conversion, spec) triples; the same model as for `%`: %s / %r / %d
+        conversions are spelled out, every other format specification yields an arbitrary text"""
+        out = []
+        for p in pieces:
+            if isinstance(p, str):
+                if p: out.append(z3.StringVal(p))
+                continue
+            v, conv, spec = p
+            if spec in ("", None) and conv in (None, "s", "r"): out.append(self.to_str(st, v, "r" if conv == "r" else "s"))
+            elif spec == "d" and conv is None: out.append(self.to_str(st, v, "d"))
+            else: out.append(fresh(STR, "fmt")[0].z)
+        if not out: return ""
+        if all(z3.is_string_value(o) for o in out): return "".join(o.as_string() for o in out)
+        return Sym(STR, z3.Concat(*out) if len(out) > 1 else out[0])
+
+    def format_method(self, st, fmt, args, kw):
+        import string
+        pieces = []; auto = 0
+        for lit, field, spec, conv in string.Formatter().parse(fmt):
+            pieces.append(lit)
+            if field is None: continue
+            if spec and "{" in spec: raise Unsupported("nested format specification")
+            if field == "": v = args[auto]; auto += 1
+            elif field.isdigit(): v = args[int(field)]
+            elif field.isidentifier() and field in kw: v = kw[field]
+            else: raise Unsupported("format field %r" % field)
+            pieces.append((v, conv, spec))
+        return self.format_fields(st, pieces)
+
+    def ev_JoinedStr(self, node, st):
+        vals = [v.value for v in node.values if isinstance(v, ast.FormattedValue)]
+        for v in node.values:
+            if isinstance(v, ast.FormattedValue) and v.format_spec is not None and not all(isinstance(x, ast.Constant) for x in v.format_spec.values):
+                raise Unsupported("f-string with a computed format specification")
+        for s, got in self.ev_seq(vals, st):
+            if isinstance(got, Raise): yield s, got; continue
+            it = iter(got); pieces = []
+            for v in node.values:
+                if isinstance(v, ast.Constant): pieces.append(v.value)
+                else:
+                    spec = "".join(x.value for x in v.format_spec.values) if v.format_spec is not None else ""
+                    pieces.append((next(it), {-1: None, 115: "s", 114: "r", 97: "a"}[v.conversion], spec))
+            yield s, self.format_fields(s, pieces)
+
     # ------------------------------------------------------------ calls
     def ev_Call(self, node, st):
         starred = [isinstance(a, ast.Starred) for a in node.args]
@@ -927,6 +971,21 @@ class Exec:
                 if isinstance(r, Raise): yield s2, ("raise", r.exc); continue
                 yield from self.assign(s2, node.target, r)
 
+    def mutate(self, st, tgt, old, new):
+        """In-place mutation of a container the engine models as a value (UFDict, UFL, symbolic list): the expression `tgt` it was reached
+        through is re-bound to the new value, and so is every other local or attribute holding the *same* object - `d = self._map; d[k] = v`
+        changes `self._map`, too."""
+        for fr in st.frames:
+            for k, x in fr.env.items():
+                if x is old: fr.env[k] = new
+        for attrs in st.heap.values():
+            for k, x in attrs.items():
+                if x is old: attrs[k] = new
+        load = _copy.deepcopy(tgt)
+        for n in ast.walk(load):
+            if hasattr(n, "ctx"): n.ctx = ast.Store()
+        yield from self.assign(st, load, new)
+
     def assign(self, st, tgt, v):
         if isinstance(tgt, ast.Name):
             st.frames[-1].env[tgt.id] = v; yield st, ("next",); return
@@ -973,10 +1032,7 @@ class Exec:
                 if isinstance(base, dict) and not isinstance(idx, Sym): base[idx] = v; yield s, ("next",); continue
                 if isinstance(base, UFDict):
                     new = base.updated(lift_to(base.key_ty, idx), base.encode(s, v))
-                    load = _copy.deepcopy(tgt.value)
-                    for n in ast.walk(load):
-                        if hasattr(n, "ctx"): n.ctx = ast.Store()
-                    yield from self.assign(s, load, new); continue
+                    yield from self.mutate(s, tgt.value, base, new); continue
                 from . import builtins_model
                 yield from builtins_model.setitem(self, s, base, idx, v)
             return
@@ -1176,6 +1232,8 @@ class Exec:
         head = st.copy()
         henv = head.frames[-1].env
         for var, ty in spec.havoc.items():
+            if "." not in var and getattr(self, "_assigned_names", None) is not None and len(st.frames) == 1 and var.split("[")[0] not in self._assigned_names:
+                continue        # a local of an earlier version of the function (renamed / inlined since): nothing to give a fresh value to; a model that still reads it gets a KeyError, i.e. "not bound"
             if var.endswith("]"):
                 nm, ix = var[:-1].split("["); v, cons = fresh(ty, nm); self.lookup(head, nm)[int(ix)] = v
             elif "." in var:
